@@ -31,11 +31,12 @@ RULE += (' Also: a context decorator around every flavour of awaitable-returning
 RULE += (" Also: managers' enter values that are awaitable payload (ExitStack scenario).")
 RULE += (' Also: the same exit callable / manager registered twice on an ExitStack (two registrations, two runs, whatever the flavour).')
 RULE += (' Also: the plain-__anext__ source flavour (fails AND ends at the call).')
+RULE += (' Also: callables that are classes (calling creates an awaitable job).')
 ASSUMPTIONS = ["baseline (list + def) behaviour itself is judged by C01/C02, not here"]
 EXHAUSTIVE = {"quick": False, "thorough": False}
 N_SPECS = {"quick": 6000, "thorough": 200000}
 SRC_FL = ["list", "getitem_seq", "sync_iter", "async_gen", "async_class", "async_class_bare", "async_class_future", "async_class_lazy", "async_iterable", "sync_iterable", "async_class_plainnext"]
-FN_FL = ["def", "async_def", "partial", "callobj", "awaitobj"]
+FN_FL = ["def", "async_def", "partial", "callobj", "awaitobj", "classobj"]
 
 
 CALL_FAULTS = ["StopIteration", "StopAsyncIteration", "StopIteration", "ValueError", "TypeError", "KeyError", "LookupError",
